@@ -65,6 +65,12 @@ func concBatches(seed int64, tier core.Tier, prop string) []core.Batch {
 				Params: core.Params(concCfg{Workers: w, InCh: 16, Directed: "expiry-during-shutdown", Ops: tierPick(tier, 6, 12)})})
 		}
 	}
+	if prop == "C02" {
+		for rep := 0; rep < tierPick(tier, 1, 4); rep++ {
+			bs = append(bs, core.Batch{Name: fmt.Sprintf("directed-stale-closed-handlers-r%d", rep), TimeoutS: 300,
+				Params: core.Params(concCfg{Workers: []int{4, 16, 2, 8}[rep], InCh: 16, Directed: "stale-closed-handlers", Ops: tierPick(tier, 6, 25)})})
+		}
+	}
 	return bs
 }
 
@@ -117,6 +123,10 @@ func concRun(c *core.Ctx, b core.Batch, prop string) {
 	json.Unmarshal(b.Params, &cfg)
 	if cfg.Directed == "restart-during-drain" {
 		concRestartDuringDrain(c, cfg, prop)
+		return
+	}
+	if cfg.Directed == "stale-closed-handlers" {
+		concStaleClosedHandlers(c, cfg, prop)
 		return
 	}
 	if cfg.Directed == "expiry-during-shutdown" {
